@@ -134,6 +134,10 @@ const LIB_DEPENDENTS_2024: &[(&str, &str)] = &[
     ("f3:negative-impl", "use mylib::feats3::Kind;\nfn f(a: u8) -> felt252 { let arr = array![a]; arr.kind() + a.kind() }\n"),
     ("f3:negative-impl-conflict", "use mylib::feats3::Kind;\nfn f(a: u16) -> felt252 { a.kind() }\n"),
     ("f3:assoc-constraint", "fn f(a: u8) -> u32 { mylib::feats3::sum_iter(array![a, 2, 3].into_iter()) }\n"),
+    ("f3:private-glob-signature", "fn f(a: u32) -> u32 { let sq = mylib::feats3::square(a % 100); mylib::feats3::area(sq) + sq.w }\n"),
+    ("f3:private-glob-param-only", "fn f(a: u32) -> u32 { mylib::feats3::area(mylib::feats3::square(a % 100)) }\n"),
+    ("f3:crate-glob-body", "fn f(a: u32) -> u32 { mylib::feats3::crate_glob::unit_plus(a) }\n"),
+    ("f3:crate-glob-member-type", "fn f(a: u32) -> u32 { let h = mylib::feats3::crate_glob::Holder { r: mylib::feats3::square(a % 100) }; h.r.h }\n"),
     ("f3:visibility-private", "fn f(a: u8) -> u8 { mylib::feats::f_private(a) }\n"),
     ("f3:visibility-crate", "fn f(a: u8) -> u8 { mylib::feats::f_hidden(a) }\n"),
     ("f3:visibility-member", "fn f(a: u8) -> u8 { mylib::feats2::mk_priv(a).b }\n"),
@@ -179,7 +183,14 @@ fn run_library(ctx: &mut Ctx) {
                 let mut sdb = new_db(cfg);
                 set_src_deps_opts(&mut sdb, "mylib", lib_text, &[], None, *opts);
                 let mut cdb = new_db(cfg);
-                set_src_deps_opts(&mut cdb, "mylib", lib_text, &[], Some(blob), *opts);
+                let lib_cached = set_src_deps_opts(&mut cdb, "mylib", lib_text, &[], Some(blob), *opts);
+                // the library is error-free from source (checked above): it must be so when it comes from its
+                // cache (what is not cached - signatures, members - is resolved again in the loading database)
+                match guarded(|| diagnostics(&cdb, &lib_cached)) {
+                    Ok((d, true)) => ctx.violation("cached-library-has-errors", "the library crate is error-free from source but has error diagnostics when loaded from its own cache", json!({"config": cfg.name(), "settings": pname, "cache": d.chars().take(600).collect::<String>()})),
+                    Ok(_) => {}
+                    Err((loc, msg)) => ctx.violation(format!("panic-only-on-one-side:{}", panic_sig(&loc, &msg)), format!("diagnostics of the cached library panic: {loc}: {msg}"), json!({"config": cfg.name(), "settings": pname})),
+                }
                 for (name, code) in &deps {
                     if !ctx.sub(|| json!({"dependent": name, "config": cfg.name(), "settings": pname, "cached_crate": "mylib"})) {
                         continue;
